@@ -126,6 +126,13 @@ fn compare(outs: &[Lines; 4]) -> Option<(String, String, String)> {
                 if field(&h.1, "checksum") != Some("true") || field(&n.1, "checksum") != Some("false") {
                     return Some((k.0.clone(), k.1.clone(), format!("checksum presence: hash build `{}`, no-hash build `{}`", h.1, n.1)));
                 }
+                // "the four checksum bytes": what the hash build appends is the checksum its own
+                // decoder computes over the decoded frame (driver field `trailer`), for every source
+                if let Some(t) = field(&h.1, "trailer") {
+                    if t != "ok" || field(&n.1, "trailer") != Some("na") {
+                        return Some((k.0.clone(), k.1.clone(), format!("the four bytes the hash build appends are not the checksum of the content (trailer={t}): hash build `{}`, no-hash build `{}`", h.1, n.1)));
+                    }
+                }
                 let (lh, ln) = (field(&h.1, "len").and_then(|x| x.parse::<usize>().ok()), field(&n.1, "len").and_then(|x| x.parse::<usize>().ok()));
                 if lh != ln.map(|x| x + 4) {
                     return Some((k.0.clone(), k.1.clone(), format!("hash build frame is not exactly 4 bytes longer: {lh:?} vs {ln:?}")));
